@@ -249,7 +249,7 @@ func run(c Case) *hx.Outcome {
 				o.Failf(pid+":expired-kept", "[%s] message %s/%s is older than the period (%v) but survived the scan (scan error: %v)", c.Backend, w.box, w.id, period, err)
 			}
 			if present && w.gone {
-				o.Failf(pid+":harness", "message %s/%s removed by an injected operation is still present", w.box, w.id)
+				o.Failf(pid+":removed-message-present", "[%s] a message with id %s/%s is present although that message was removed during the scan (an id issued twice?)", c.Backend, w.box, w.id)
 			}
 		default:
 			if !present {
